@@ -1375,6 +1375,311 @@ def search_results(ctx, scratch):
                  PRE + "from qibo.result import CircuitResult\nc = Circuit(2); c.add(gates.H(0)); c.add(gates.M(0, 1)); r = c(nshots=5); r.samples()\nd = r.to_dict()\na = CircuitResult.from_dict(d); b = CircuitResult.from_dict(d)\nassert np.array_equal(np.asarray(a.samples()), np.asarray(b.samples()))\n")
 
 
+
+# ---------------------------------------------------------------------------
+# export histories and repeated imports (scripts are executed in-process and are the replay)
+
+
+def run_script(ctx, key, what, script, broken=()):
+    """exec a self-contained script; an exception (other than SystemExit(0)) is a failing
+    input, reported with the script itself as replay."""
+    env = {}
+    try:
+        exec(compile(script, "<c13-script>", "exec"), env)
+        return True
+    except SystemExit as e:
+        if not e.code:
+            return True
+        msg = f"exit {e.code}"
+    except Exception as e:  # noqa: BLE001
+        msg = f"{type(e).__name__}: {str(e)[:160]}"
+    ctx.fail(key, f"{what}: {msg}", script, observed=msg, broken=list(broken))
+    return False
+
+
+HIST_HELPERS = (
+    "import json, copy\n"
+    "def regs(c): return {k: tuple(v) for k, v in c.measurement_tuples.items()}\n"
+    "def pars(c): return [tuple(float(x) for x in g.parameters) for g in c.queue if isinstance(g, gates.ParametrizedGate)]\n"
+    "def same(c, c2, what):\n"
+    "    assert c2.nqubits == c.nqubits, what + ': nqubits'\n"
+    "    assert regs(c2) == regs(c), what + f': registers {regs(c2)} != {regs(c)}'\n"
+    "    assert len(pars(c2)) == len(pars(c)) and all(np.allclose(a, b, rtol=1e-12, atol=1e-12) for a, b in zip(pars(c2), pars(c))), what + f': parameters {pars(c2)} != current {pars(c)}'\n"
+    "    assert np.allclose(c2.unitary(), c.unitary(), atol=1e-10), what + ': operator differs from the circuit as it is now'\n"
+    "def export_qasm(c):\n"
+    "    try:\n        return c.to_qasm()\n    except Exception:\n        raise SystemExit(0)  # refusing to export is fine\n"
+)
+
+ROUTES = ["set-list", "set-dict", "set-flat", "gate-trainable", "gate-nontrainable", "add-gate", "add-measurement"]
+
+
+def history_circuit(rng, with_m):
+    """script lines building a 3-qubit circuit with named gates: trainable 1-parameter and
+    multi-parameter gates and non-trainable ones; returns (lines, gate table)."""
+    n = 3
+    lines = [f"c = Circuit({n})"]
+    table = []  # (var, class, nparams, trainable)
+    one = ["RX", "RY", "RZ", "U1", "GPI2"]
+    two = ["CRX", "CU1", "RXX", "RZZ", "CRZ"]
+    specs = [(rng.choice(one), 1, True), ("U3", 3, True), (rng.choice(one), 1, False), (rng.choice(two), 1, rng.random() < 0.5),
+             ("U2", 2, rng.random() < 0.5), ("CU3", 3, False)]
+    rng.shuffle(specs)
+    for i, (cls, k, tr) in enumerate(specs):
+        nq = 2 if cls in two or cls == "CU3" else 1
+        qs = rng.sample(range(n - 1 if with_m else n), nq) if (n - 1 if with_m else n) >= nq else list(range(nq))
+        ps = [round(rng.uniform(-3, 3), 4) for _ in range(k)]
+        args = ", ".join([*map(str, qs), *map(repr, ps)])
+        lines.append(f"g{i} = gates.{cls}({args}{'' if tr else ', trainable=False'}); c.add(g{i})")
+        table.append((f"g{i}", cls, k, tr))
+        if rng.random() < 0.3:
+            lines.append(f"c.add(gates.{rng.choice(['H', 'S', 'X'])}({rng.randrange(n - 1 if with_m else n)}))")
+    if with_m:
+        lines.append(f"c.add(gates.M({n - 1}, register_name='a'))")
+    return lines, table, n
+
+
+def route_lines(rng, route, table, n, with_m, step):
+    val = lambda k: tuple(round(rng.uniform(-3, 3), 4) for _ in range(k)) if k > 1 else round(rng.uniform(-3, 3), 4)
+    tr = [t for t in table if t[3]]
+    if route == "set-list":
+        return [f"c.set_parameters([{', '.join(repr(val(k)) for _, _, k, _ in tr)}])"]
+    if route == "set-flat":
+        flat = [round(rng.uniform(-3, 3), 4) for _, _, k, _ in tr for _ in range(k)]
+        return [f"c.set_parameters({flat!r})"]
+    if route == "set-dict":
+        sub = rng.sample(tr, rng.randint(1, len(tr)))
+        return ["c.set_parameters({" + ", ".join(f"{v}: {val(k)!r}" for v, _, k, _ in sub) + "})"]
+    if route == "gate-trainable":
+        v, _, k, _ = rng.choice(tr)
+        return [f"{v}.parameters = {val(k)!r}"]
+    if route == "gate-nontrainable":
+        v, _, k, _ = rng.choice([t for t in table if not t[3]])
+        return [f"{v}.parameters = {val(k)!r}"]
+    if route == "add-gate":
+        q = rng.randrange(n - 1 if with_m else n)
+        var = f"h{step}_{len(table)}"
+        table.append((var, "R", 1, True))  # the added gate is trainable: later set_parameters calls include it
+        return [f"{var} = gates.{rng.choice(['RY', 'RZ', 'RX'])}({q}, {val(1)!r}); c.add({var})"]
+    if route == "add-measurement":
+        # a new register on a qubit that no later gate touches (the last qubit when free)
+        q = n - 1 - step
+        return [f"c.add(gates.M({q}, register_name='b{step}'))"]
+    raise ValueError(route)
+
+
+def search_histories(ctx):
+    rng = ctx.rng
+    reps = 6 if ctx.thorough else 2
+    nq = nd = 0
+    for route in ROUTES:
+        for rep in range(reps):
+            for second in [None] + ([rng.choice(ROUTES)] if rep % 2 == 0 else []):
+                with_m = rng.random() < 0.4 and route != "add-measurement" and second != "add-measurement"
+                lines, table, n = history_circuit(rng, with_m)
+                build = PRE + HIST_HELPERS + "\n".join(lines) + "\n"
+                seq = [route] + ([second] if second else [])
+                # OpenQASM: export, update, export again, ...
+                body = "t = export_qasm(c); same(c, Circuit.from_qasm(t), 'first export')\n"
+                tab = list(table)
+                for i, r in enumerate(seq):
+                    body += "\n".join(route_lines(rng, r, tab, n, with_m, i)) + "\n"
+                    body += f"t = export_qasm(c); same(c, Circuit.from_qasm(t), 'export after {r}')\n"
+                ctx.case(("qasm-history", tuple(seq), tuple(lines)))
+                nq += 1
+                run_script(ctx, f"qasm:history:{seq[-1] if second else route}", f"export / update ({' then '.join(seq)}) / export", build + body,
+                           broken=["C13_search_export_histories"])
+                # dictionaries and JSON
+                body = "r = c.raw; j = json.dumps(c.raw); same(c, Circuit.from_dict(r), 'first raw')\n"
+                tab = list(table)
+                for i, r in enumerate(seq):
+                    body += "\n".join(route_lines(rng, r, tab, n, with_m, i)) + "\n"
+                    body += (f"r = c.raw; same(c, Circuit.from_dict(r), 'raw after {r}')\n"
+                             f"j = json.dumps(c.raw); same(c, Circuit.from_dict(json.loads(j)), 'json after {r}')\n"
+                             "for _g in c.queue:\n"
+                             "    if isinstance(_g, gates.ParametrizedGate):\n"
+                             f"        _k = gates.Gate.from_dict(json.loads(_g.to_json())); assert np.allclose(_k.parameters, _g.parameters), 'Gate.to_json after {r}'\n")
+                ctx.case(("dict-history", tuple(seq), tuple(lines)))
+                nd += 1
+                run_script(ctx, f"dict:history:{seq[-1] if second else route}", f"raw / update ({' then '.join(seq)}) / raw", build + body,
+                           broken=["C13_search_export_histories"])
+    bad = [f for f in ctx.failures if f["key"].startswith(("qasm:history:", "dict:history:"))]
+    ctx.ob("C13_search_export_histories", not bad, "search", f"{len(bad)} export histories fail")
+    ctx.stat("qasm_histories", nq)
+    ctx.stat("dict_histories", nd)
+
+
+TWICE_HELPERS = (
+    "import json, copy\n"
+    "def deq(a, b):\n"
+    "    if isinstance(a, dict): return isinstance(b, dict) and list(a) == list(b) and all(deq(a[k], b[k]) for k in a)\n"
+    "    if isinstance(a, (list, tuple)): return type(a) is type(b) and len(a) == len(b) and all(deq(x, y) for x, y in zip(a, b))\n"
+    "    if isinstance(a, np.ndarray) or isinstance(b, np.ndarray): return isinstance(a, np.ndarray) and isinstance(b, np.ndarray) and a.shape == b.shape and np.array_equal(a, b)\n"
+    "    return type(a) is type(b) and a == b\n"
+    "def op(c):\n"
+    "    try:\n        return np.asarray(c.unitary())\n    except Exception:\n        pass\n"
+    "    v = np.arange(1, 2 ** c.nqubits + 1) * (1 + 0.5j); v = v / np.linalg.norm(v)\n"
+    "    return np.asarray(c(np.outer(v, v.conj())).state())\n"
+)
+
+
+def search_import_twice(ctx):
+    """every dictionary / JSON import is done twice from the same in-memory object: the
+    payload must be unchanged and both imports equivalent to the original."""
+    _, Circuit, gates = setup()
+    rng = ctx.rng
+    infos = qgates.gate_infos()
+    cases = []  # (kind, setup lines)
+    for name, info in sorted(infos.items()):
+        if info.generic:
+            qs = rng.sample(range(4), info.nq)
+            ps = [round(rng.uniform(-3, 3), 4) for _ in range(info.np)]
+            if name == "MS":
+                ps[-1] = abs(ps[-1]) / 3
+            expr = gate_expr(name, qs, ps)
+        elif name in SPECIAL_EXPR:
+            expr = SPECIAL_EXPR[name]
+        else:
+            continue
+        cases.append((f"gate:{name}", f"g = {expr}\nc = Circuit(4); c.add(g)\n"))
+    cases.append(("gate:controlled", "g = gates.RY(2, 0.4).controlled_by(0, 3)\nc = Circuit(4); c.add(g)\n"))
+    cases.append(("gate:controlled-unitary", "g = gates.Unitary(unitary_group.rvs(2, random_state=4), 1).controlled_by(3)\nc = Circuit(4); c.add(g)\n"))
+    big = ("c = Circuit(4); c.add([gates.H(0), gates.CNOT(0, 1), gates.RX(2, 0.3), gates.CZ(1, 2), gates.RY(0, -0.7), gates.U3(3, 0.1, 0.2, 0.3), "
+           "gates.fSim(2, 3, 0.4, 0.5), gates.CRZ(3, 0, 1.1), gates.TOFFOLI(0, 1, 2)])\n")
+    circuit_cases = [
+        ("circuit", big),
+        ("circuit-measured", big + "c.add(gates.M(3, 1, register_name='a')); c.add(gates.M(0, p0=0.1))\n"),
+        ("circuit-fused", big + "c = c.fuse()\n"),
+        ("circuit-fused-3", big + "c = c.fuse(max_qubits=3)\n"),
+        ("circuit-fused-measured", big + "c.add(gates.M(2, 0)); c = c.fuse()\n"),
+        ("circuit-dm", big.replace("Circuit(4)", "Circuit(4, density_matrix=True)")),
+    ]
+    check_c = ("raw = SRC\nsnap = copy.deepcopy(raw)\n"
+               "c2 = Circuit.from_dict(raw)\nmut = not deq(raw, snap)\nc3 = Circuit.from_dict(raw)\n"
+               "assert np.allclose(op(c2), op(c), atol=1e-10), 'first import differs from the original'\n"
+               "assert np.allclose(op(c3), op(c), atol=1e-10), 'TWICE: the second import of the same dictionary differs from the original'\n"
+               "assert {k: tuple(v) for k, v in c3.measurement_tuples.items()} == {k: tuple(v) for k, v in c.measurement_tuples.items()}, 'TWICE: registers'\n"
+               "assert not mut and deq(raw, snap), 'MUTATES: the import changed the dictionary it was given'\n")
+    n = 0
+    for kind, setup_lines in cases + circuit_cases:
+        for src, tag in (("c.raw", ""), ("json.loads(json.dumps(c.raw))", "-json")):
+            script = PRE + TWICE_HELPERS + "from scipy.stats import unitary_group\n" + setup_lines
+            if tag:
+                script += "try:\n    json.dumps(c.raw)\nexcept TypeError:\n    raise SystemExit(0)  # not JSON serialisable: export refuses\n"
+            script += check_c.replace('SRC', src)
+            n += 1
+            ctx.case(("import-twice", kind + tag))
+            _twice(ctx, kind + tag, script)
+        if kind.startswith("gate:") and kind != "gate:Align":  # Align's delay is not part of raw (identity operator)
+            script = (PRE + TWICE_HELPERS + "from scipy.stats import unitary_group\n" + setup_lines
+                      + "raw = g.raw\nsnap = copy.deepcopy(raw)\na = gates.Gate.from_dict(raw); b = gates.Gate.from_dict(raw)\n"
+                      "for k in (a, b):\n    assert type(k) is type(g) and k.qubits == g.qubits and len(k.parameters) == len(g.parameters), 'TWICE: gate differs'\n"
+                      "    assert all(np.allclose(x, y) for x, y in zip(k.parameters, g.parameters)), 'TWICE: parameters differ'\n"
+                      "assert deq(raw, snap), 'MUTATES: the import changed the dictionary it was given'\n")
+            n += 1
+            ctx.case(("import-twice", kind + "-gate"))
+            _twice(ctx, kind, script)
+    # measurement gates, with and without results
+    m_cases = {
+        "M": "m = gates.M(2, 0, register_name='a', p0={0: 0.1, 2: 0.2})\n",
+        "M-basis": "m = gates.M(1, 0, basis=[gates.X, gates.Y])\n",
+        "M-samples": "c = Circuit(3); c.add(gates.H(0)); c.add(gates.CNOT(0, 2)); m = gates.M(2, 0); c.add(m); c(nshots=9).samples()\n",
+    }
+    for kind, lines in m_cases.items():
+        script = (PRE + TWICE_HELPERS + lines
+                  + "obs = lambda k: (k.target_qubits, k.register_name, k.collapse, [b.__name__ for b in k.basis_gates], k.bitflip_map, None if not k.result.has_samples() else np.asarray(k.result.samples()).tolist())\n"
+                  "raw = m.raw\nsnap = copy.deepcopy(raw)\na = gates.Gate.from_dict(raw); b = gates.Gate.from_dict(raw)\n"
+                  "assert obs(a) == obs(m), 'first import differs'\nassert obs(b) == obs(m), 'TWICE: second import differs'\n"
+                  "assert deq(raw, snap), 'MUTATES: the import changed the dictionary it was given'\n"
+                  "js = m.to_json(); a = gates.M.load(js); b = gates.M.load(js)\nassert obs(a) == obs(m) and obs(b) == obs(m), 'TWICE: M.load'\n")
+        n += 1
+        ctx.case(("import-twice", kind))
+        _twice(ctx, kind, script)
+    # results of all kinds
+    r_cases = {
+        "result-state": "c = Circuit(2); c.add([gates.H(0), gates.CNOT(0, 1)]); r = c()\n",
+        "result-state-dm": "c = Circuit(2, density_matrix=True); c.add([gates.H(0), gates.CNOT(0, 1)]); r = c()\n",
+        "result-circuitresult": "c = Circuit(3); c.add([gates.H(0), gates.CNOT(0, 2), gates.RY(1, 0.8)]); c.add(gates.M(2, 0, register_name='a')); c.add(gates.M(1, register_name='b')); r = c(nshots=12); r.samples()\n",
+        "result-circuitresult-nosamples": "c = Circuit(3); c.add([gates.H(0), gates.CNOT(0, 2)]); c.add(gates.M(2, 0)); r = c(nshots=12)\n",
+        "result-circuitresult-dm": "c = Circuit(2, density_matrix=True); c.add([gates.H(0), gates.CNOT(0, 1)]); c.add(gates.M(1, 0, p0=0.2)); r = c(nshots=12); r.samples()\n",
+        "result-outcomes": "c = Circuit(2); c.add([gates.H(0), gates.PauliNoiseChannel(0, [('X', 0.3)])]); c.add(gates.M(0, 1)); r = c(nshots=12)\n",
+        "result-outcomes-collapse": "c = Circuit(2); c.add(gates.H(0)); c.add(gates.M(0, collapse=True)); c.add(gates.H(0)); c.add(gates.M(0, 1)); r = c(nshots=6)\n",
+    }
+    for kind, lines in r_cases.items():
+        script = (PRE + TWICE_HELPERS + lines
+                  + "def obs(x):\n    o = []\n    if hasattr(x, '_state'): o.append(np.asarray(x.state()).round(12).tolist())\n"
+                  "    if hasattr(x, 'measurements') and x.has_samples(): o += [np.asarray(x.samples()).tolist(), dict(x.frequencies()), {k: dict(v) for k, v in x.frequencies(registers=True).items()}]\n"
+                  "    if hasattr(x, 'measurements'): o.append(x.nshots)\n    return o\n"
+                  "had = hasattr(r, 'measurements') and r.has_samples()\nd = r.to_dict()\nsnap = copy.deepcopy(d)\n"
+                  "a = type(r).from_dict(d)\nmut = not deq(d, snap)\nb = type(r).from_dict(d)\n"
+                  "if had or not hasattr(r, 'measurements'):\n"
+                  "    assert deq(obs(a), obs(r)), 'first load differs'\n    assert deq(obs(b), obs(r)), 'TWICE: second load of the same payload differs'\n"
+                  "else:\n    assert deq(obs(a)[0], obs(r)[0]) and deq(obs(b)[0], obs(r)[0]), 'TWICE: state differs'\n"
+                  "assert not mut and deq(d, snap), 'MUTATES: the load changed the payload it was given'\n")
+        n += 1
+        ctx.case(("import-twice", kind))
+        _twice(ctx, kind, script)
+    bad = [f for f in ctx.failures if f["key"].startswith(("dict:import-twice:", "dict:import-mutates-payload:"))]
+    ctx.ob("C13_search_import_twice", not bad, "search", f"{len(bad)} repeated imports fail")
+    ctx.stat("import_twice_cases", n)
+
+
+def _skippable(script):
+    """rewrite `assert cond, 'TWICE…'` as `assert SKIP_TWICE or (cond), 'TWICE…'`."""
+    out = ["SKIP_TWICE = False"]
+    for line in script.split("\n"):
+        if "assert " in line and ", 'TWICE" in line:
+            head, rest = line.split("assert ", 1)
+            cond, msg = rest.rsplit(", 'TWICE", 1)
+            line = f"{head}assert SKIP_TWICE or ({cond}), 'TWICE{msg}"
+        out.append(line)
+    return "\n".join(out)
+
+
+def _twice(ctx, kind, script):
+    script = _skippable(script)
+    env = {}
+    try:
+        exec(compile(script, "<c13-twice>", "exec"), env)
+        return
+    except SystemExit as e:
+        if not e.code:
+            return
+        msg = f"exit {e.code}"
+    except Exception as e:  # noqa: BLE001
+        msg = f"{type(e).__name__}: {str(e)[:160]}"
+    if msg.startswith("AssertionError: MUTATES"):
+        key = f"dict:import-mutates-payload:{kind}"
+    elif msg.startswith("AssertionError: first"):
+        return  # a plain round-trip failure: reported by the single-import suites under their keys
+    elif "from_dict" in msg and not msg.startswith("AssertionError"):
+        key = f"dict:import-twice:{kind}"
+    else:
+        key = f"dict:import-twice:{kind}"
+    ctx.fail(key, f"importing the same in-memory object twice ({kind}): {msg}", script, observed=msg, broken=["C13_search_import_twice"])
+    if key.startswith("dict:import-twice:"):
+        # was the payload changed by the first import?  (same script, second-import checks off)
+        script_m = script.replace("SKIP_TWICE = False", "SKIP_TWICE = True", 1)
+        try:
+            exec(compile(script_m, "<c13-twice>", "exec"), {})
+        except SystemExit:
+            pass
+        except Exception as e:  # noqa: BLE001
+            if "MUTATES" in str(e):
+                ctx.fail(f"dict:import-mutates-payload:{kind}", f"the import changes the object it is given ({kind}): {str(e)[:160]}", script_m,
+                         broken=["C13_search_import_twice"])
+    # a mutated payload usually also breaks the second import: report that key as well
+    if key.startswith("dict:import-mutates-payload:"):
+        script2 = script.replace("assert not mut and deq(raw, snap)", "assert True or deq(raw, snap)").replace("assert not mut and deq(d, snap)", "assert True or deq(d, snap)")
+        env = {}
+        try:
+            exec(compile(script2, "<c13-twice>", "exec"), env)
+        except SystemExit:
+            pass
+        except Exception as e:  # noqa: BLE001
+            ctx.fail(f"dict:import-twice:{kind}", f"second import of the same in-memory object ({kind}): {type(e).__name__}: {str(e)[:160]}", script2,
+                     broken=["C13_search_import_twice"])
+
+
 # ---------------------------------------------------------------------------
 
 
@@ -1403,6 +1708,8 @@ def run(ctx):
     search_programs(ctx)
     corr_dict(ctx)
     search_dicts(ctx)
+    search_histories(ctx)
+    search_import_twice(ctx)
     if OBSERVED:
         ctx.notes.append("observations outside the property (foreign QASM programs, not exporter output): " + "; ".join(OBSERVED))
     scratch = tempfile.mkdtemp(prefix="c13_")
